@@ -317,4 +317,4 @@ def parts(tier):
     q = tier == "quick"
     return [Part("json", oracle_json, strategy=json_strategy, n=2000 if q else 96000),
             Part("valid", oracle_valid, strategy=valid_strategy(), n=600 if q else 24000),
-            Part("fault", oracle_fault, strategy=fault_strategy(), n=700 if q else 24000)]
+            Part("fault", oracle_fault, strategy=fault_strategy(), n=1000 if q else 24000)]
